@@ -334,7 +334,11 @@ class CFG:
                                     out.add("Exception")
                                 continue
                             if hn == CANCEL:
-                                continue  # only awaits raise cancellation
+                                # only awaits raise cancellation - and Future.exception()/result() of a cancelled future
+                                if any(isinstance(x, ast.Call) and call_name(x) in ("exception", "result") for x in own_walk(s)) or \
+                                        (isinstance(s, ast.Call) and call_name(s) in ("exception", "result")):
+                                    out.add(CANCEL)
+                                continue
                             if hn in ("KeyError", "IndexError", "LookupError") and not contains(s, (ast.Subscript, ast.Call)):
                                 continue
                             if hn not in ("KeyError", "IndexError", "LookupError", "AttributeError") and not has_call:
